@@ -2038,7 +2038,13 @@ class CheckImplied(todict.PrintNode):
                     "{}:Too many arguments to 'size': ".format(
                         self.context.linenumber, self.expr)
                 )
-            argname = node.args[0].name
+            argname = getattr(node.args[0], "name", None)
+            if argname is None:
+                # size(3)
+                raise RuntimeError(
+                    "{}:Argument of '{}' must be the name of an argument: {}".format(
+                        self.context.linenumber, node.name, self.expr)
+                )
             arg = declast.find_arg_by_name(self.decls, argname)
             if arg is None:
                 raise RuntimeError(
@@ -2053,7 +2059,13 @@ class CheckImplied(todict.PrintNode):
                     "{}:Too many arguments to '{}': {}".format(
                         self.context.linenumber, node.name, self.expr)
                 )
-            argname = node.args[0].name
+            argname = getattr(node.args[0], "name", None)
+            if argname is None:
+                # size(3)
+                raise RuntimeError(
+                    "{}:Argument of '{}' must be the name of an argument: {}".format(
+                        self.context.linenumber, node.name, self.expr)
+                )
             arg = declast.find_arg_by_name(self.decls, argname)
             if arg is None:
                 raise RuntimeError(
